@@ -14,12 +14,9 @@ structure RSVec (c : Nat) (v : SVec α) (l : List α) : Prop where
   le : v.size ≤ c
   view : v.view = l.map some
 
-/-- histories on which `static_vector` must equal the bounded vector: sized / variadic construction within the
-    capacity, `resize` either not above the current size or above the capacity (refused) -/
+/-- the only guard left: a variadic construction has at most `Capacity` arguments (more do not compile) -/
 def svecOk (c : Nat) : Option (List α) → Op α → Prop
-  | _, .ctorN _ n => n ≤ c
   | _, .ctorV _ vs => vs.length ≤ c
-  | some l, .resize _ n => n ≤ l.length ∨ c < n
   | _, _ => True
 
 theorem RSVec.size_eq {c : Nat} {v : SVec α} {l : List α} (h : RSVec c v l) : v.size = l.length := by
@@ -42,14 +39,33 @@ theorem svec_store_view (v : SVec α) (i : Nat) (x : Cell α) (L : Ledger) (hi :
     (v.store i x L) = ({ v with cells := v.cells.set i x }, L) := by
   simp [SVec.store, hi]
 
+/-- `resize(n)` within the capacity: the state, and the client-visible elements (`std::vector::resize`) -/
+theorem svec_resize_spec (c : Nat) (zero : α) (x : SVec α) (n : Nat) (L : Ledger) (h1 : x.cells.length = c)
+    (h2 : x.size ≤ c) (hn : n ≤ c) :
+    SVec.resize c zero x n L = ({ cells := initRange zero x.cells x.size n, size := n }, L) ∧
+    (initRange zero x.cells x.size n).length = c ∧
+    (initRange zero x.cells x.size n).take n =
+      (if n ≤ x.size then x.view.take n else x.view ++ List.replicate (n - x.size) (some zero)) := by
+  have hc : decide (x.size < n ∧ x.cells.length < n) = false := by simp; omega
+  refine ⟨by simp [SVec.resize, hn, hc, Ledger.flagIf], ?_, ?_⟩
+  · rw [Vec.initRange_length zero x.cells x.size n (by omega)]; exact h1
+  · by_cases hs : n ≤ x.size
+    · have : ¬ x.size < n := by omega
+      simp only [hs, if_true, initRange, this, if_false, SVec.view, List.take_take]
+      congr 1; omega
+    · simp only [hs, if_false, SVec.view]
+      exact Vec.initRange_take zero x.cells x.size n (by omega) (by omega)
+
 theorem svec_sim (c : Nat) (zero : α) : Sim (svecImpl c zero) (boundedSpec c zero) (RSVec c) (svecOk c) where
   size_eq := fun x y h => h.size_eq
   mkDefault := fun s L M _ => ⟨by simp [svecImpl, SVec.mkDefault], by simp [svecImpl, SVec.mkDefault],
     by simp [svecImpl, boundedSpec, SVec.mkDefault, SVec.view]⟩
-  mkSized := fun s n L M hok => by
-    simp only [svecOk] at hok
-    refine ⟨by simp [svecImpl, SVec.mkSized], by simpa [svecImpl, SVec.mkSized] using hok, ?_⟩
-    simp [svecImpl, boundedSpec, SVec.mkSized, SVec.view, hok, List.take_replicate, Nat.min_eq_left hok]
+  mkSized := fun s n L M _ => by
+    by_cases hn : n ≤ c
+    · refine ⟨by simp [svecImpl, SVec.mkSized], by simpa [svecImpl, SVec.mkSized, hn] using hn, ?_⟩
+      simp [svecImpl, boundedSpec, SVec.mkSized, SVec.view, hn, List.take_replicate, Nat.min_eq_left hn]
+    · refine ⟨by simp [svecImpl, SVec.mkSized], by simp [svecImpl, SVec.mkSized, hn], ?_⟩
+      simp [svecImpl, boundedSpec, SVec.mkSized, SVec.view, hn]
   mkVariadic := fun s vs L M hok => by
     simp only [svecOk] at hok
     refine ⟨?_, by simpa [svecImpl, SVec.mkVariadic] using hok, ?_⟩
@@ -60,16 +76,18 @@ theorem svec_sim (c : Nat) (zero : α) : Sim (svecImpl c zero) (boundedSpec c ze
   mkCopy := fun d s x y L M _ h => h
   assign := fun d s x y x' y' L M _ h h' => by
     have h1 := h.len; have h2 := h.le; have h3 := h'.len; have h4 := h'.le
-    have hr : SVec.resize c x x'.size L = ({ x with size := x'.size }, L) := by simp [SVec.resize, h4]
+    obtain ⟨hr, hl, _⟩ := svec_resize_spec c zero x x'.size L h1 h2 h4
     refine ⟨?_, ?_, ?_⟩
-    · simp [svecImpl, SVec.assign, hr, SVec.copyFrom, List.length_take]; omega
+    · simp [svecImpl, SVec.assign, hr, SVec.copyFrom, List.length_take, hl]; omega
     · simpa [svecImpl, SVec.assign, hr, SVec.copyFrom] using h4
     · simp only [svecImpl, boundedSpec, SVec.assign, hr, SVec.copyFrom, SVec.view]
       rw [List.take_left' (by simp [List.length_take]; omega)]
       exact h'.view
   assignSelf := fun d x y L M _ h => by
     have h1 := h.len; have h2 := h.le
-    have hr : SVec.resize c x x.size L = (x, L) := by simp [SVec.resize, h2]
+    have hr : SVec.resize c zero x x.size L = (x, L) := by
+      have hc : decide (x.size < x.size ∧ x.cells.length < x.size) = false := by simp
+      simp [SVec.resize, h2, initRange, hc, Ledger.flagIf]
     have : (svecImpl c zero).assignSelf x L = (x, L.flagIf (decide (x.cells.length < x.size ∨ x.cells.length < x.size)) .oob) := by
       simp [svecImpl, SVec.assignSelf, hr, SVec.copyFrom]
     rw [this]; exact h
@@ -80,13 +98,13 @@ theorem svec_sim (c : Nat) (zero : α) : Sim (svecImpl c zero) (boundedSpec c ze
       simpa [svecImpl, boundedSpec, SVec.push, hc, this] using h
     · have hle : x.size + 1 ≤ c := by omega
       have hle' : y.length + 1 ≤ c := by omega
-      have hi : x.size < x.cells.length := by omega
-      simp only [svecImpl, boundedSpec, SVec.push, hc, if_false, SVec.resize, hle, if_true, Nat.add_sub_cancel,
-        hle']
+      obtain ⟨hr, hl, _⟩ := svec_resize_spec c zero x (x.size + 1) L h1 h2 hle
+      have hi : x.size < (initRange zero x.cells x.size (x.size + 1)).length := by omega
+      simp only [svecImpl, boundedSpec, SVec.push, hc, if_false, hr, Nat.add_sub_cancel, hle', if_true]
       rw [svec_store_view _ _ _ _ (by simpa using hi)]
-      refine ⟨by simp [h1], by simpa using hle, ?_⟩
+      refine ⟨by simp [hl], by simpa using hle, ?_⟩
       simp only [SVec.view]
-      rw [take_succ_set _ _ _ hi]
+      rw [take_succ_set _ _ _ hi, Vec.initRange_take_old zero x.cells x.size (x.size + 1) (by omega)]
       have := h.view; simp only [SVec.view] at this
       simp [this]
   pushAt := fun s i x y L M _ h hi => by
@@ -99,26 +117,27 @@ theorem svec_sim (c : Nat) (zero : α) : Sim (svecImpl c zero) (boundedSpec c ze
       exact h
     · have hle : x.size + 1 ≤ c := by omega
       have hle' : y.length + 1 ≤ c := by omega
-      have hlen : x.size < x.cells.length := by omega
-      simp only [svecImpl, boundedSpec, SVec.pushAt, hc, if_false, SVec.resize, hle, if_true, Nat.add_sub_cancel,
-        hle', hcell, List.getElem?_eq_getElem hi']
+      obtain ⟨hr, hl, _⟩ := svec_resize_spec c zero x (x.size + 1) L h1 h2 hle
+      have hlen : x.size < (initRange zero x.cells x.size (x.size + 1)).length := by omega
+      simp only [svecImpl, boundedSpec, SVec.pushAt, hc, if_false, hr, Nat.add_sub_cancel,
+        hle', if_true, hcell, List.getElem?_eq_getElem hi']
       rw [svec_store_view _ _ _ _ (by simpa using hlen)]
-      refine ⟨by simp [h1], by simpa using hle, ?_⟩
+      refine ⟨by simp [hl], by simpa using hle, ?_⟩
       simp only [SVec.view]
-      rw [take_succ_set _ _ _ hlen]
+      rw [take_succ_set _ _ _ hlen, Vec.initRange_take_old zero x.cells x.size (x.size + 1) (by omega)]
       have := h.view; simp only [SVec.view] at this
       simp [this]
-  resize := fun s n x y L M hok h => by
+  resize := fun s n x y L M _ h => by
     have h1 := h.len; have h2 := h.le; have hs := h.size_eq
-    simp only [svecOk] at hok
-    rcases hok with hn | hn
-    · have hnc : n ≤ c := by omega
-      refine ⟨by simpa [svecImpl, SVec.resize, hnc] using h1, by simpa [svecImpl, SVec.resize, hnc] using hnc, ?_⟩
-      simp only [svecImpl, boundedSpec, SVec.resize, hnc, if_true, SVec.view, listResize, hn, List.map_take]
-      have := h.view; simp only [SVec.view] at this
-      rw [← this, List.take_take]; congr 1; omega
-    · have hnc : ¬ n ≤ c := by omega
-      simpa [svecImpl, boundedSpec, SVec.resize, hnc] using h
+    by_cases hnc : n ≤ c
+    · obtain ⟨hr, hl, hv⟩ := svec_resize_spec c zero x n L h1 h2 hnc
+      refine ⟨by simpa [svecImpl, hr] using hl, by simpa [svecImpl, hr] using hnc, ?_⟩
+      simp only [svecImpl, boundedSpec, hr, hnc, if_true, SVec.view, listResize]
+      rw [hv, h.view, hs]
+      split
+      · simp [List.map_take]
+      · simp
+    · simpa [svecImpl, boundedSpec, SVec.resize, hnc] using h
   write := fun s i a x y L M _ h hi => by
     have h1 := h.len; have h2 := h.le; have hs := h.size_eq
     have hi' : i < y.length := hi
@@ -141,13 +160,14 @@ def SVec.Inv (c : Nat) (v : SVec α) : Prop := v.cells.length = c ∧ v.size ≤
 def Ledger.Untouched (L : Ledger) : Prop := L.allocs = 0 ∧ L.freed = [] ∧ L.events = []
 
 def svecSafeOk (c : Nat) : Op α → Prop
-  | .ctorN _ n => n ≤ c
   | .ctorV _ vs => vs.length ≤ c
   | _ => True
 
 theorem svec_pres (c : Nat) (zero : α) : Pres (svecImpl c zero) (SVec.Inv c) Ledger.Untouched (svecSafeOk c) where
   mkDefault := fun s L _ hq => ⟨by simp [svecImpl, SVec.mkDefault, SVec.Inv], hq⟩
-  mkSized := fun s n L hok hq => ⟨by simpa [svecImpl, SVec.mkSized, SVec.Inv, svecSafeOk] using hok, hq⟩
+  mkSized := fun s n L _ hq => by
+    refine ⟨⟨by simp [svecImpl, SVec.mkSized], ?_⟩, hq⟩
+    simp only [svecImpl, SVec.mkSized]; split <;> omega
   mkVariadic := fun s vs L hok hq => by
     simp only [svecSafeOk] at hok
     refine ⟨⟨?_, by simpa [svecImpl, SVec.mkVariadic] using hok⟩, hq⟩
@@ -155,16 +175,18 @@ theorem svec_pres (c : Nat) (zero : α) : Pres (svecImpl c zero) (SVec.Inv c) Le
   mkCopy := fun d s x L _ hp hq => ⟨hp, hq⟩
   assign := fun d s x y L _ hx hy hq => by
     obtain ⟨h1, h2⟩ := hx; obtain ⟨h3, h4⟩ := hy
-    have hr : SVec.resize c x y.size L = ({ x with size := y.size }, L) := by simp [SVec.resize, h4]
-    have hc : decide (y.cells.length < y.size ∨ x.cells.length < y.size) = false := by simp; omega
+    obtain ⟨hr, hl, _⟩ := svec_resize_spec c zero x y.size L h1 h2 h4
+    have hc : decide (y.cells.length < y.size ∨ (initRange zero x.cells x.size y.size).length < y.size) = false := by
+      simp; omega
     refine ⟨⟨?_, ?_⟩, ?_⟩
-    · simp [svecImpl, SVec.assign, hr, SVec.copyFrom, List.length_take]; omega
+    · simp [svecImpl, SVec.assign, hr, SVec.copyFrom, List.length_take, hl]; omega
     · simpa [svecImpl, SVec.assign, hr, SVec.copyFrom] using h4
     · simpa [svecImpl, SVec.assign, hr, SVec.copyFrom, hc, Ledger.flagIf] using hq
   assignSelf := fun d x L _ hx hq => by
     obtain ⟨h1, h2⟩ := hx
-    have hr : SVec.resize c x x.size L = (x, L) := by simp [SVec.resize, h2]
-    have hc : decide (x.cells.length < x.size ∨ x.cells.length < x.size) = false := by simp; omega
+    have hr : SVec.resize c zero x x.size L = (x, L) := by
+      have hc : decide (x.size < x.size ∧ x.cells.length < x.size) = false := by simp
+      simp [SVec.resize, h2, initRange, hc, Ledger.flagIf]
     have hc' : ¬ x.cells.length < x.size := by omega
     have : (svecImpl c zero).assignSelf x L = (x, L) := by
       simp [svecImpl, SVec.assignSelf, hr, SVec.copyFrom, Ledger.flagIf, hc']
@@ -174,26 +196,28 @@ theorem svec_pres (c : Nat) (zero : α) : Pres (svecImpl c zero) (SVec.Inv c) Le
     by_cases hc : c < x.size + 1
     · simpa [svecImpl, SVec.push, hc] using ⟨⟨h1, h2⟩, hq⟩
     · have hle : x.size + 1 ≤ c := by omega
-      have hi : x.size < x.cells.length := by omega
-      simp only [svecImpl, SVec.push, hc, if_false, SVec.resize, hle, if_true, Nat.add_sub_cancel]
+      obtain ⟨hr, hl, _⟩ := svec_resize_spec c zero x (x.size + 1) L h1 h2 hle
+      have hi : x.size < (initRange zero x.cells x.size (x.size + 1)).length := by omega
+      simp only [svecImpl, SVec.push, hc, if_false, hr, Nat.add_sub_cancel]
       rw [svec_store_view _ _ _ _ (by simpa using hi)]
-      exact ⟨⟨by simp [h1], by simpa using hle⟩, hq⟩
+      exact ⟨⟨by simp [hl], by simpa using hle⟩, hq⟩
   pushAt := fun s i x L _ hx hq hi => by
     obtain ⟨h1, h2⟩ := hx
     have hi' : i < x.size := hi
     by_cases hc : c < x.size + 1
     · simpa [svecImpl, SVec.pushAt, hc] using ⟨⟨h1, h2⟩, hq⟩
     · have hle : x.size + 1 ≤ c := by omega
-      have hlen : x.size < x.cells.length := by omega
+      obtain ⟨hr, hl, _⟩ := svec_resize_spec c zero x (x.size + 1) L h1 h2 hle
+      have hlen : x.size < (initRange zero x.cells x.size (x.size + 1)).length := by omega
       have hil : i < x.cells.length := by omega
-      simp only [svecImpl, SVec.pushAt, hc, if_false, SVec.resize, hle, if_true, Nat.add_sub_cancel,
-        List.getElem?_eq_getElem hil]
+      simp only [svecImpl, SVec.pushAt, hc, if_false, hr, Nat.add_sub_cancel, List.getElem?_eq_getElem hil]
       rw [svec_store_view _ _ _ _ (by simpa using hlen)]
-      exact ⟨⟨by simp [h1], by simpa using hle⟩, hq⟩
+      exact ⟨⟨by simp [hl], by simpa using hle⟩, hq⟩
   resize := fun s n x L _ hx hq => by
     obtain ⟨h1, h2⟩ := hx
     by_cases hn : n ≤ c
-    · simp only [svecImpl, SVec.resize, hn, if_true]; exact ⟨⟨h1, hn⟩, hq⟩
+    · obtain ⟨hr, hl, _⟩ := svec_resize_spec c zero x n L h1 h2 hn
+      simp only [svecImpl, hr]; exact ⟨⟨hl, hn⟩, hq⟩
     · simp only [svecImpl, SVec.resize, hn, if_false]; exact ⟨⟨h1, h2⟩, hq⟩
   write := fun s i a x L _ hx hq hi => by
     obtain ⟨h1, h2⟩ := hx
